@@ -113,10 +113,24 @@ def enc_context(events, root, enc_flag, cc=None):
         elif e[1] == ".commandCode" and isinstance(e[3], int) and msgs:
             msgs[-1][2] = e[3]
     if not msgs:
-        return {"requested": bool(enc_flag) if root == "Response" else False, "response_sessions_encrypt": False, "area_can_encrypt": None, "failed_response": False}
+        # a bare structure decoded with the encryption flag: the flag is the request; a parameter-area type can be
+        # encrypted iff it starts with a TPM2B, any other type not at all
+        st = V.S().get(root if isinstance(root, str) else getattr(root, "__name__", ""))
+        f = st["fields"] if st else []
+        area_can = bool(st and st.get("is_params") and f and isinstance(f[0][1], str) and f[0][1].startswith("TPM2B"))
+        return {"requested": bool(enc_flag), "response_sessions_encrypt": False, "area_can_encrypt": area_can, "failed_response": False, "prev_command_abandoned_early": False}
+    # did the preceding command report a problem before its parameter area began (then its session area may be
+    # incomplete and the stream cannot know what the command requested)
+    early = False
+    roots = [i for i, e in enumerate(events) if e[0] == "E" and e[1] == "" and e[3] == "..." and e[2] in ("Command", "Response")]
+    if len(roots) >= 2 and events[roots[-2]][2] == "Command":
+        seg = events[roots[-2] : roots[-1]]
+        first_w = next((i for i, e in enumerate(seg) if e[0] == "W" and e[1] != "Value"), None)
+        params_at = next((i for i, e in enumerate(seg) if e[0] == "E" and e[1] == ".parameters"), None)
+        early = first_w is not None and (params_at is None or first_w < params_at)
     kind, attrs, ccnum, rcode = msgs[-1]
     if kind == "Command":
-        return {"requested": any(a & 0x20 for a in attrs), "response_sessions_encrypt": False, "area_can_encrypt": can(ccnum, "cp"), "failed_response": False}
+        return {"requested": any(a & 0x20 for a in attrs), "response_sessions_encrypt": False, "area_can_encrypt": can(ccnum, "cp"), "failed_response": False, "prev_command_abandoned_early": False}
     if root == "Response":
         req = bool(enc_flag)
         ccnum = cc
@@ -124,4 +138,4 @@ def enc_context(events, root, enc_flag, cc=None):
         prev = next((m for m in reversed(msgs[:-1]) if m[0] == "Command"), None)
         req = bool(prev and any(a & 0x40 for a in prev[1]))
         ccnum = prev[2] if prev else None
-    return {"requested": req, "response_sessions_encrypt": any(a & 0x40 for a in attrs), "area_can_encrypt": can(ccnum, "rp"), "failed_response": rcode not in (None, 0)}
+    return {"requested": req, "response_sessions_encrypt": any(a & 0x40 for a in attrs), "area_can_encrypt": can(ccnum, "rp"), "failed_response": rcode not in (None, 0), "prev_command_abandoned_early": early}
